@@ -542,6 +542,15 @@ impl<'a> Frame<'a> {
     }
 }
 
+// Verification hook (built only with `--cfg bma400_verif`)
+#[cfg(bma400_verif)]
+impl<'a> Frame<'a> {
+    /// The bytes of the buffer this frame covers
+    pub fn verif_slice(&self) -> &'a [u8] {
+        self.slice
+    }
+}
+
 /// The type of the FIFO Frame
 pub enum FrameType {
     /// Acceleration Data
